@@ -1488,7 +1488,7 @@ func TestVerifCodecBody(t *testing.T) {
 	sum := &cbSummary{Runs: map[string]int{}, Skipped: map[string]int{}, Panicked: map[string]string{}, seen: map[string]bool{}}
 	fills := 4
 	if vThorough() {
-		fills = 40
+		fills = 100
 	}
 	if n := vEnvInt("VERIF_CODEC_FILLS", 0); n > 0 {
 		fills = n
